@@ -21,7 +21,16 @@
                                                     # it, the last step of the success path only)
          _clean_up(tmp_dir); log.info("CLEANING UP"); log.write_log(log_path)
          output["config"], output["log"], output["metadata"] (, gene_identifier_mapping)
-         write JSON; blob_to_hdf5 (metadata only unless results and taxonomy_tree present) *)
+         write JSON; blob_to_hdf5 (metadata only unless results and taxonomy_tree present)
+
+   Fail points inside `finally` (audit 3, item 13): the three writes of the `finally` block -
+   log.write_log(log_path), the JSON dump to output_path, blob_to_hdf5(hdf5_output_path) - can
+   raise too (PLogFile, PJson, PHdf5).  output_path and log_path are probed before `try`,
+   hdf5_output_path is NOT, so an HDF5 path in a directory that does not exist is first noticed
+   in `finally`, AFTER the success message was logged, the CSV written and the query file's
+   obsm appended.  An exception raised in `finally` propagates from there: the remaining
+   steps of the block are skipped, nothing is added to the log (the `except` clause is
+   over), there is no re-raise of an earlier exception (FailFinally, tag 20, ends the trace). *)
 From Coq Require Import ZArith List Bool.
 From CTM Require Import Base.Sx Model.Pool.
 Import ListNotations.
@@ -39,20 +48,24 @@ Definition key_eqb (a b : key) : bool :=
 Definition has_key (k : key) (l : list key) : bool := existsb (key_eqb k) l.
 
 (* points at which the run can fail, in program order *)
-Inductive point := PCopy | PMarkerCache | PAssign | PCsv | PObsm | PSummary.
+Inductive point := PCopy | PMarkerCache | PAssign | PCsv | PObsm | PSummary
+                 | PLogFile | PJson | PHdf5.                      (* inside `finally` *)
 
 Definition point_eqb (a b : point) : bool :=
   match a, b with
   | PCopy, PCopy | PMarkerCache, PMarkerCache | PAssign, PAssign | PCsv, PCsv
-  | PObsm, PObsm | PSummary, PSummary => true
+  | PObsm, PObsm | PSummary, PSummary | PLogFile, PLogFile | PJson, PJson | PHdf5, PHdf5 => true
   | _, _ => false
   end.
+Definition in_finally (p : point) : bool :=
+  match p with PLogFile | PJson | PHdf5 => true | _ => false end.
 
 Inductive eff :=
 | MkTmp | ProbeOutputs | MkResultBuf
 | CopyInputs | MarkerCache | Assign | WriteCsv | AppendObsm       (* inside _run_mapping *)
 | WriteSummary | CleanResultBuf | LogSuccess
 | Fail (p : point)                                                 (* the step at p raised *)
+| FailFinally (p : point)                                          (* the step at p, inside `finally`, raised *)
 | LogTraceback
 | CleanTmp | LogCleaning | WriteLogFile
 | WriteJson (keys : list key)
@@ -109,20 +122,43 @@ Definition try_body (c : cfg) (fail : option point) : list eff * list key * bool
 
 Definition opt (b : bool) (e : eff) : list eff := if b then [e] else [].
 
-Definition finally_part (c : cfg) (output : list key) : list eff :=
+(* the steps of `finally` that can raise, in order; a step that is enabled and is the failing
+   point raises and the rest of the block is skipped *)
+Fixpoint run_fin_steps (fail : option point) (steps : list (point * bool * eff)) : list eff * bool :=
+  match steps with
+  | [] => ([], true)
+  | (p, enabled, e) :: rest =>
+      if enabled then
+        if fails_at fail p then ([FailFinally p], false)
+        else let r := run_fin_steps fail rest in (e :: fst r, snd r)
+      else run_fin_steps fail rest
+  end.
+
+(* the `finally` block: effects, completed? *)
+Definition finally_part (c : cfg) (fail : option point) (output : list key) : list eff * bool :=
   let keys := output ++ [KConfig; KLog; KMetadata] ++ (if has_gene_map c then [KGeneMapping] else []) in
-  [CleanResultBuf] ++ opt (has_tmp c) CleanTmp ++ [LogCleaning] ++ opt (has_log_path c) WriteLogFile ++
-  opt (has_json c) (WriteJson keys) ++
-  opt (has_hdf5 c) (WriteHdf5 (remove_key KResults keys)
-                              (has_key KTaxonomyTree keys && has_key KResults keys)).
+  let r := run_fin_steps fail
+             [ (PLogFile, has_log_path c, WriteLogFile);
+               (PJson, has_json c, WriteJson keys);
+               (PHdf5, has_hdf5 c, WriteHdf5 (remove_key KResults keys)
+                                             (has_key KTaxonomyTree keys && has_key KResults keys)) ] in
+  ([CleanResultBuf] ++ opt (has_tmp c) CleanTmp ++ [LogCleaning] ++ fst r, snd r).
+
+(* the step of `finally` at p is executed under configuration c *)
+Definition fin_enabled (c : cfg) (p : point) : bool :=
+  match p with PLogFile => has_log_path c | PJson => has_json c | PHdf5 => has_hdf5 c | _ => false end.
+
+(* the body of `try` raised (the `except` clause ran) *)
+Definition body_raised (c : cfg) (fail : option point) : bool := snd (try_body c fail).
 
 Definition run_mapping (c : cfg) (fail : option point) : list eff * bool :=
   let '(body, output, raised) := try_body c fail in
+  let f := finally_part c fail output in
   (opt (has_tmp c) MkTmp ++ [ProbeOutputs] ++ body ++
    (if raised then [LogTraceback] else []) ++
-   finally_part c output ++
-   (if raised then [Reraise] else []),
-   raised).
+   fst f ++
+   (if raised && snd f then [Reraise] else []),
+   raised || negb (snd f)).
 
 (* what the harness can observe of a trace *)
 Definition eff_tag (e : eff) : Z :=
@@ -131,6 +167,7 @@ Definition eff_tag (e : eff) : Z :=
   | Assign => 6 | WriteCsv => 7 | AppendObsm => 8 | WriteSummary => 9 | CleanResultBuf => 10
   | LogSuccess => 11 | Fail _ => 12 | LogTraceback => 13 | CleanTmp => 14 | LogCleaning => 15
   | WriteLogFile => 16 | WriteJson _ => 17 | WriteHdf5 _ _ => 18 | Reraise => 19
+  | FailFinally _ => 20
   end%Z.
 Definition has_eff (t : Z) (tr : list eff) : bool := existsb (fun e => (eff_tag e =? t)%Z) tr.
 
@@ -229,11 +266,23 @@ Definition clean_trace_ok (c : cfg) (tr : list eff) (raised : bool) : bool :=
 Definition clean_run_ok (c : cfg) : bool :=
   let r := run_mapping c None in clean_trace_ok c (fst r) (snd r).
 
+(* a failure inside `finally` after the body of `try` succeeded: the call raises although the
+   success message is in the log; no traceback is added to the log, nothing is re-raised; the
+   result buffer and the tmp directory were removed before; everything the body does - CSV,
+   obsm, summary - was done *)
+Definition finally_failed_trace (c : cfg) (tr : list eff) (raised : bool) : bool :=
+  raised && has_eff 20 tr && has_eff 11 tr && before 11 20 tr &&
+  negb (has_eff 12 tr) && negb (has_eff 13 tr) && negb (has_eff 19 tr) &&
+  before 10 20 tr && implb (has_tmp c) (before 14 20 tr) && before 15 20 tr &&
+  implb (has_csv c) (has_eff 7 tr) && implb (has_obsm c) (has_eff 8 tr) &&
+  implb (has_summary c) (has_eff 9 tr).
+
 (* ------------------------------------------------------------------ wire *)
 Definition point_of (z : Z) : option point :=
   match z with
   | 1 => Some PCopy | 2 => Some PMarkerCache | 3 => Some PAssign | 4 => Some PCsv
-  | 5 => Some PObsm | 6 => Some PSummary | _ => None
+  | 5 => Some PObsm | 6 => Some PSummary
+  | 7 => Some PLogFile | 8 => Some PJson | 9 => Some PHdf5 | _ => None
   end%Z.
 
 (* input: ((tmp csv obsm summary log json hdf5 genemap) fail) with fail = 0 for none.
@@ -272,7 +321,7 @@ Definition eff_of (jk : list key) (hk : list key * bool) (t : Z) : option eff :=
   | 9 => Some WriteSummary | 10 => Some CleanResultBuf | 11 => Some LogSuccess
   | 12 => Some (Fail PAssign) | 13 => Some LogTraceback | 14 => Some CleanTmp | 15 => Some LogCleaning
   | 16 => Some WriteLogFile | 17 => Some (WriteJson jk) | 18 => Some (WriteHdf5 (fst hk) (snd hk))
-  | 19 => Some Reraise | _ => None
+  | 19 => Some Reraise | 20 => Some (FailFinally PHdf5) | _ => None
   end%Z.
 
 Definition check_trace_sx (x : sx) : sx :=
